@@ -9,6 +9,10 @@ over ATOMS (source text of the test leaves).  Tools/Envelope.v INTERPRETS this t
 A local that is only ever bound to the constants True/False (a FLAG, e.g. `salvaged` in write.execute) and is read
 by a guard is emitted with ALL its assignment sites and their guard chains (`status_<tool>_flags`); Envelope.v
 evaluates the flag from that table, so the flag is not an opaque fact.
+The schema-resolution helpers (core/hydrator.py resolve_hermetic_standard + compute_vocabulary_hash, schemas/loader.py
+load_schema / load_schema_by_name / get_schema_search_paths / get_builtin_schema) have no envelope: their decision
+table (resolve_hermetic_standard), decorators and the module-level state they mention are emitted and PINNED
+(Tools/EnvelopePins.v): a remembered digest / memoised lookup changes them.
 
 Fail closed: any construct that could touch a tracked key or leave the function in a way this walker does not
 understand raises TranslateError.
@@ -576,6 +580,92 @@ def emit_tables(name, tables_flags, out):
     out.append(f"Definition status_{name} : list fn_table :=\n {coq_list(items, 'fn_table')}.\n\n")
 
 
+# ---------------------------------------------------------------- schema-resolution helpers (no envelope; pinned)
+def _module_state_read(mod, fn):
+    """module-level names BOUND BY ASSIGNMENT in `mod` that `fn` mentions (imports / defs / classes are not state)"""
+    bound = set()
+    for st in mod.body:
+        tgts = []
+        if isinstance(st, ast.Assign):
+            tgts = st.targets
+        elif isinstance(st, (ast.AnnAssign, ast.AugAssign)):
+            tgts = [st.target]
+        for t in tgts:
+            bound.update(_target_names(t))
+    used = {n.id for n in ast.walk(fn) if isinstance(n, ast.Name)}
+    for n in ast.walk(fn):
+        if isinstance(n, (ast.Global, ast.Nonlocal)):
+            used.update(n.names)
+    return sorted(bound & used)
+
+
+def resolution_rows(fn, where):
+    """Decision table of a straight-line/if-only resolver: rows (guard texts, `return <expr>` | `raise <Type>`), the
+    definitions of its locals and every other effect (source text), in source order.  Anything else: fail closed."""
+    rows, defs = [], []
+
+    def walk(stmts, guards):
+        for st in stmts:
+            if isinstance(st, ast.Expr) and isinstance(st.value, ast.Constant):
+                continue
+            if isinstance(st, ast.If):
+                t = ast.unparse(st.test)
+                walk(st.body, guards + [t])
+                walk(st.orelse, guards + ["not (" + t + ")"])
+            elif isinstance(st, ast.Return):
+                need(st.value is not None, f"{where}: bare return")
+                rows.append((list(guards), "return " + ast.unparse(st.value)))
+            elif isinstance(st, ast.Raise):
+                need(st.exc is not None, f"{where}: bare raise")
+                e = st.exc.func if isinstance(st.exc, ast.Call) else st.exc
+                rows.append((list(guards), "raise " + ast.unparse(e)))
+            elif isinstance(st, ast.Assign) and len(st.targets) == 1 and isinstance(st.targets[0], ast.Name):
+                defs.append((list(guards), st.targets[0].id + " = " + ast.unparse(st.value)))
+            elif isinstance(st, ast.AnnAssign) and isinstance(st.target, ast.Name) and st.value is not None:
+                defs.append((list(guards), st.target.id + " = " + ast.unparse(st.value)))
+            elif isinstance(st, (ast.Assign, ast.AugAssign, ast.AnnAssign, ast.Expr, ast.Delete)):
+                defs.append((list(guards), "effect " + ast.unparse(st)))     # stores into containers, calls, ...
+            elif isinstance(st, (ast.Pass, ast.Assert)):
+                continue
+            else:
+                raise TranslateError(f"{where}: statement {type(st).__name__} not modelled (line {st.lineno})")
+    walk(fn.body, [])
+    for n in ast.walk(fn):
+        need(not isinstance(n, ast.NamedExpr), f"{where}: assignment expression")
+    return rows, defs
+
+
+def emit_resolution(src, out):
+    def rowlist(rs):
+        return coq_list([f"({coq_list([coq_str(g) for g in gs], 'str')}, {coq_str(a)})" for gs, a in rs], "(list str * str)")
+    hmod = parse_file(src / "core" / "hydrator.py")
+    fn = find_def(hmod, "resolve_hermetic_standard")
+    rows, defs = resolution_rows(fn, "hydrator.resolve_hermetic_standard")
+    out.append("(* core/hydrator.py resolve_hermetic_standard (the route of schema='latest' / 'frozen@sha256:..' in octave_write)\n")
+    for gs, a in defs:
+        out.append(("     [" + " & ".join(gs) + "]  " + a).replace("(*", "( *").replace("*)", "* )") + "\n")
+    for gs, a in rows:
+        out.append(("     " + (" & ".join(gs) or "always") + "  ==>  " + a).replace("(*", "( *").replace("*)", "* )") + "\n")
+    out.append("*)\n")
+    out.append(f"Definition status_hermetic_rows : list (list str * str) :=\n {rowlist(rows)}.\n")
+    out.append(f"Definition status_hermetic_defs : list (list str * str) :=\n {rowlist(defs)}.\n")
+    # per resolver function: decorators and module-level assigned names it mentions (memoisation = remembered identity)
+    lmod = parse_file(src / "schemas" / "loader.py")
+    items = []
+    for label, mod, name in (("hydrator.resolve_hermetic_standard", hmod, "resolve_hermetic_standard"),
+                             ("hydrator.compute_vocabulary_hash", hmod, "compute_vocabulary_hash"),
+                             ("loader.load_schema", lmod, "load_schema"),
+                             ("loader.load_schema_by_name", lmod, "load_schema_by_name"),
+                             ("loader.get_schema_search_paths", lmod, "get_schema_search_paths"),
+                             ("loader.get_builtin_schema", lmod, "get_builtin_schema")):
+        f = find_def(mod, name)
+        decos = [ast.unparse(d) for d in f.decorator_list]
+        state = _module_state_read(mod, f)
+        items.append(f"({coq_str(label)}, {coq_list([coq_str(d) for d in decos], 'str')}, {coq_list([coq_str(x) for x in state], 'str')})")
+    out.append("(* (resolver function, decorators, module-level assigned names it mentions) *)\n")
+    out.append(f"Definition status_resolver_state : list (str * list str * list str) :=\n {coq_list(items, '(str * list str * list str)')}.\n\n")
+
+
 def generate(src):
     out = [HEADER.replace("Open Scope N_scope.", "From OV Require Import Base.Strs Tools.EnvelopeSyntax.\nOpen Scope N_scope.")]
     out.append("(* C10 guard table: see harness/translate/status_t.py and Tools/EnvelopeSyntax.v *)\n\n")
@@ -590,6 +680,7 @@ def generate(src):
     cli = parse_file(src / "cli" / "main.py")
     emit_tables("cli_validate", cli_table(cli, "validate"), out)
     emit_tables("cli_write", cli_table(cli, "write"), out)
+    emit_resolution(src, out)
     # ---- constants the facts are defined against
     vmod = parse_file(src / "mcp" / "validate.py")
     profiles = sorted(const_eval(module_assign(vmod, "VALID_PROFILES")))
